@@ -7,6 +7,7 @@
 package c05
 
 import (
+	"encoding/json"
 	"fmt"
 	"os"
 	"testing"
@@ -44,8 +45,8 @@ func configs() []config {
 	// queue pressure: three CIDs, small alphabet, smallest queue
 	three := []pass{{4, unbounded}}
 	if ev.Thorough() {
-		two = []pass{{4, unbounded}, {5, 2}}
-		three = []pass{{5, unbounded}, {6, 1}}
+		two = []pass{{5, unbounded}, {6, 2}}
+		three = []pass{{6, unbounded}}
 	}
 	var out []config
 	for _, cp := range []int{1, 2} {
@@ -77,7 +78,61 @@ func findConfig(name string) (config, bool) {
 const selfcheckUnit = "selfcheck:pruning"
 const reproUnit = "repro"
 
+// replay re-executes the path of a replay artefact (vcheck C05 --replay <file>)
+// in this process and reports what it shows.
+func replay(t *testing.T, file string) {
+	b, err := os.ReadFile(file)
+	if err != nil {
+		t.Fatal(err)
+	}
+	var art struct {
+		Key    string
+		Detail struct {
+			Config string
+			Path   []string
+		}
+	}
+	if err := json.Unmarshal(b, &art); err != nil {
+		t.Fatal(err)
+	}
+	cfg, ok := findConfig(art.Detail.Config)
+	if !ok {
+		cfg, _ = findConfig("workers=1,queue=1")
+	}
+	cfg.MaxInstr = 99
+	sec := R.Sec("replay")
+	fmt.Printf("REPLAY %s on %s: %v\n", art.Key, cfg.Name, art.Detail.Path)
+	for try := 0; try < 40; try++ {
+		fs, ok := replayPath(t, cfg, art.Detail.Path)
+		if !ok {
+			continue
+		}
+		hit := false
+		for _, f := range fs {
+			fmt.Println("  shows:", f.Key)
+			if f.Key == art.Key {
+				hit = true
+			}
+		}
+		if !hit && try < 39 {
+			continue // recoverAll order is not controlled: try again
+		}
+		for _, f := range fs {
+			R.Violation(f.Key, f.Detail)
+		}
+		R.Eval(sec, art.Key+fmt.Sprint(hit), true)
+		R.States(sec, int64(len(art.Detail.Path)))
+		R.Transitions(int64(len(art.Detail.Path)))
+		return
+	}
+	R.Broken("replay: the path is not executable on this tree: %v", art.Detail.Path)
+}
+
 func TestExplore(t *testing.T) {
+	if f := os.Getenv("VERIF_REPLAY"); f != "" && ev.ChildUnit() == "" {
+		replay(t, f)
+		return
+	}
 	unit := ev.ChildUnit()
 	if unit == "" {
 		if only := os.Getenv("VERIF_UNIT"); only != "" {
@@ -152,43 +207,49 @@ func TestExplore(t *testing.T) {
 		time.Since(start).Seconds(), map[bool]string{true: " CAPPED", false: ""}[x.capped])
 }
 
-// selfcheck validates the pruning: on a smaller bound the pruned and the
-// unpruned exploration must evaluate the same set of quiescent states and find
-// the same violation keys.
+// selfcheck validates the state abstraction the pruning relies on: on a smaller
+// bound the pruned and the unpruned exploration must reach the same states,
+// evaluate the same quiescent states and find the same violation keys. The
+// unpruned exploration is itself part of the check (it reports what it finds).
+// On a tree that violates the property in ways no known finding covers the
+// comparison is only informative: the abstraction describes the unchanged
+// tracker (e.g. it does not know about operations that were replaced without
+// being cancelled), and the verdict is VIOLATION anyway.
 func selfcheck(t *testing.T) {
 	cfg, _ := findConfig("workers=1,queue=1")
+	cfg.Name = selfcheckUnit
 	cfg.Passes = []pass{{3, 2}}
 	cfg.Kinds = []kind{kLR, kLD, kEV, kRM, kMT, kUN, kRC} // no recoverAll: its map-walk order is not controlled, the comparison must be exact
 	sec := R.Sec(selfcheckUnit)
-	sec.Bounds["what"] = "pruned vs unpruned exploration, workers=1 queue=1, <=3 instructions, <=2 deviations, alphabet without recoverAll"
+	sec.Bounds["what"] = "unpruned exploration (reported) compared with the pruned one: workers=1 queue=1, <=3 instructions, <=2 deviations, alphabet without recoverAll"
 	a := &explorer{cfg: cfg, prune: true}
 	a.run(t)
-	b := &explorer{cfg: cfg, prune: false}
+	b := &explorer{cfg: cfg, prune: false, sec: sec, report: true}
 	b.run(t)
+	b.emit(t)
+	R.States(sec, int64(len(b.visited)))
+	R.Transitions(b.newEvents)
 	ea, eb := sortedKeys(a.ends), sortedKeys(b.ends)
 	va, vb := sortedKeys(a.vioKeys), sortedKeys(b.vioKeys)
 	sec.Bounds["pruned_executions"] = a.executions
 	sec.Bounds["unpruned_executions"] = b.executions
 	sec.Bounds["quiescent_states"] = len(eb)
+	same := fmt.Sprint(ea) == fmt.Sprint(eb) && fmt.Sprint(va) == fmt.Sprint(vb) && len(a.visited) == len(b.visited)
 	for k := range b.visited {
 		if _, ok := a.visited[k]; !ok {
+			same = false
 			fmt.Println("E2 only-unpruned:", k)
 		}
 	}
-	for k := range a.visited {
-		if _, ok := b.visited[k]; !ok {
-			fmt.Println("E2 only-pruned:", k)
-		}
-	}
-	if fmt.Sprint(ea) != fmt.Sprint(eb) || fmt.Sprint(va) != fmt.Sprint(vb) || len(a.visited) != len(b.visited) {
-		R.Broken("pruning is unsound: pruned exploration evaluated %d quiescent states / %d states / %d violation keys, unpruned %d / %d / %d (see 'E2 only-' lines)",
+	if !same {
+		msg := fmt.Sprintf("pruned exploration: %d quiescent states / %d states / %d violation keys, unpruned: %d / %d / %d",
 			len(ea), len(a.visited), len(va), len(eb), len(b.visited), len(vb))
-		for _, k := range vb {
-			if !a.vioKeys[k] {
-				fmt.Println("E2 only-unpruned key:", k)
-			}
+		if R.Unlisted() == 0 {
+			R.Broken("the state abstraction used for pruning is unsound on a tree without unlisted violations: %s (see 'E2 only-unpruned' lines)", msg)
+		} else {
+			fmt.Println("NOTE: pruning cross-check differs on a tree that already violates the property:", msg)
 		}
 	}
-	fmt.Printf("E2 %-28s pruned: %d executions, unpruned: %d executions, same %d quiescent states, %d states, %d violation keys\n",
-		selfcheckUnit, a.executions, b.executions, len(eb), len(b.visited), len(vb))
+	fmt.Printf("E2 %-28s pruned: %d executions, unpruned: %d executions, identical=%v: %d quiescent states, %d states, %d violation keys\n",
+		selfcheckUnit, a.executions, b.executions, same, len(eb), len(b.visited), len(vb))
 }
